@@ -33,6 +33,58 @@ func runC12(c *Ctx) {
 	verifierTermination(c, "R4")
 	dv := p.MustMethod(pkgBalloon, "MembershipProof", "DigestVerify")
 	c02R1(newSub(c, "R5"), dv, p.MustMethod(pkgHyper, "QueryProof", "Verify"), p.MustMethod(pkgHistory, "MembershipProof", "Verify"))
+	nilPartsGuarded(c, "R5", dv)
+	// the request loops the verifying client runs (callAny, discovery, retrier) make progress on every
+	// way round: a verifier that never returns is not total (shared with C20)
+	c.Rule("R6", "client request loops behind the verifier make progress on every way round", 3)
+	sub := newCtx(p, c.Prop, c.Tier)
+	runC20(sub)
+	for _, in := range sub.Instances {
+		if in.Rule == c.Prop+".R4" {
+			in.Rule = c.Prop + ".R6"
+			c.Instances = append(c.Instances, in)
+		}
+	}
+}
+
+// nilPartsGuarded: a proof rebuilt from an answer may lack a part; every use of a pointer-typed part of
+// the proof as a receiver must be dominated by its own nil test (a joint `a == nil && b == nil` test
+// says nothing about either).
+func nilPartsGuarded(c *Ctx, rule string, fn *ssa.Function) {
+	p := c.P
+	n := 0
+	eachInstr(fn, func(in ssa.Instruction) {
+		cc := callCommon(in)
+		if cc == nil || cc.StaticCallee() == nil || len(cc.Args) == 0 || cc.StaticCallee().Signature.Recv() == nil {
+			return
+		}
+		// receiver = *(p.Part) or p.Part, with Part a pointer-typed field of the proof
+		recv := cc.Args[0]
+		if u, ok := recv.(*ssa.UnOp); ok {
+			if _, isPtr := u.X.Type().Underlying().(*types.Pointer); isPtr {
+				if _, isLoad := u.X.(*ssa.UnOp); isLoad {
+					recv = u.X
+				}
+			}
+		}
+		t := p.TermOf(recv)
+		if !(t.Strip().Op == "field" && t.Strip().Args[0].IsParam(fn, 0)) {
+			return
+		}
+		if _, isPtr := recv.Type().Underlying().(*types.Pointer); !isPtr {
+			return
+		}
+		n++
+		ts := t.String()
+		cs := p.CondsAt(in.Block())
+		guarded := hasCond(cs, func(k Cond) bool {
+			return !k.Pol && k.Atom.Op == "EQ" && (k.Atom.Args[0].Name == "nil" && k.Atom.Args[1].String() == ts || k.Atom.Args[1].Name == "nil" && k.Atom.Args[0].String() == ts)
+		})
+		c.Check(guarded, rule, funcName(fn)+":nil-part:"+t.Strip().Name, in.Pos(), "part tested against nil before it is used", "the "+t.Strip().Name+" part of the proof is used as a receiver without its own dominating nil test: an answer lacking that part aborts the verifier (conds: "+strings.Join(condStrings(cs), " ∧ ")+")")
+	})
+	if n == 0 {
+		c.Fail(rule, funcName(fn)+":nil-part", fn.Pos(), "the verifier uses no pointer-typed part of the proof")
+	}
 }
 
 // newSub lets a rule of another property report under this property's rule id.
@@ -74,7 +126,11 @@ func recoverBoundary(c *Ctx, rule string, fn *ssa.Function) {
 			}
 			callsRecover := false
 			setsFalse := false
+			rethrows := false
 			eachInstr(cl, func(i2 ssa.Instruction) {
+				if _, isP := i2.(*ssa.Panic); isP {
+					rethrows = true
+				}
 				if cc := callCommon(i2); cc != nil {
 					if b, isB := cc.Value.(*ssa.Builtin); isB && b.Name() == "recover" {
 						callsRecover = true
@@ -86,12 +142,15 @@ func recoverBoundary(c *Ctx, rule string, fn *ssa.Function) {
 					}
 				}
 			})
-			if callsRecover && setsFalse {
+			if callsRecover && setsFalse && !rethrows {
 				ok = true
+			}
+			if callsRecover && rethrows {
+				why = "the deferred recover handler panics again for some recovered values: those aborts (e.g. run-time errors on a malformed digest or path) escape the verifier"
 			}
 		}
 	}
-	if !ok {
+	if !ok && why == "" {
 		// list what can abort below
 		var sites []string
 		for _, f := range p.reachableFrom(fn) {
